@@ -154,6 +154,41 @@ func c09(c *Ctx) {
 		sort.Slice(entries, func(i, j int) bool { return entries[i].String() < entries[j].String() })
 		c.noGlobalWrites("R09.P", entries, "the client's paths: two clients of one process would share it")
 	}
+	r.Rule("R09.Q", "makeRequest waits for its answer with a plain receive on the channel sendPacket returned (no select with a timer or a default): a call that gives up leaves its entry in the table, and the late answer blocks the receive loop on a channel nobody reads", 1)
+	if f := c.fn("R09.Q", load.RootMod, "*MTProto", "makeRequest"); f != nil {
+		var ch ssa.Value
+		for _, cs := range an.Calls(f) {
+			if strings.HasSuffix(cs.Name, "MTProto).sendPacket") {
+				for _, ref := range *cs.Instr.(ssa.Value).Referrers() {
+					if ex, ok := ref.(*ssa.Extract); ok && ex.Index == 0 {
+						ch = ex
+					}
+				}
+			}
+		}
+		plain, selects := 0, 0
+		for _, b := range f.Blocks {
+			for _, in := range b.Instrs {
+				switch x := in.(type) {
+				case *ssa.UnOp:
+					if x.Op == token.ARROW && x.X == ch {
+						plain++
+					}
+				case *ssa.Select:
+					for _, st := range x.States {
+						if st.Chan == ch {
+							selects++
+						}
+					}
+				}
+			}
+		}
+		if ch == nil {
+			r.Undecide("R09.Q", "wait:plain-receive", c.pos(f.Pos()), "no sendPacket call in makeRequest")
+		} else {
+			r.Check(plain > 0 && selects == 0, "R09.Q", "wait:plain-receive", c.pos(f.Pos()), sprintf("%d plain receive(s) on the answer channel, %d select(s) over it", plain, selects))
+		}
+	}
 	r.Rule("R09.N", "a caller whose request the server refused for its salt is told to repeat it on every path through the bad_server_salt arm (= R11.N filed under C09): an early exit before the lookup leaves that call waiting for ever", 1)
 	c.rotationNotifiesOnEveryPath("R09.N")
 	r.Rule("R09.H", "an rpc_error reaches its caller unless the client has repaired its cause: tryToProcessErr returns the error it was given or the result of Reconnect(), never a nil of its own (= R17.M handled-only-by-reconnect filed under C09)", 1)
@@ -460,6 +495,8 @@ func c11(c *Ctx) {
 	if f := c.fn("R11.S", load.SessPkg, "*genericFileSessionLoader", "Store"); f != nil {
 		c.storeSuccessMeansWritten("R11.S", f)
 	}
+	r.Rule("R11.V", "every salt the receive loop adopts is handed to the store on every path to the end of processResponse (not only when a waiter was found)", 2)
+	c.saltSavedOnEveryPath("R11.V")
 	r.Rule("R11.O", "the waiter is registered under the request's id before the request is written (= C09 R09.O): a bad_server_salt that overtakes the sender finds the waiter it has to tell to retry", 1)
 	c.registerBeforeWrite("R11.O")
 	r.Rule("R11.T", "target: the retry marker is sent to the waiter registered under bad_msg_id only", 1)
@@ -1199,5 +1236,71 @@ func (c *Ctx) rotationNotifiesOnEveryPath(rule string) {
 			})
 			r.Check(!reach[join], rule, "notify:every-path", c.pos(sends[0].Pos()), "with a waiter registered under bad_msg_id, the end of the bad_server_salt arm is reachable without sending it the retry marker (an early exit from the arm): that caller waits for ever")
 		}
+	}
+}
+
+// saltSavedOnEveryPath: every store to MTProto.serverSalt in processResponse is followed by a call of SaveSession on
+// every path to a return of the function (a save that happens only when a waiter exists leaves the file with the old
+// salt after a rotation that rejected an acknowledgement).
+func (c *Ctx) saltSavedOnEveryPath(rule string) {
+	r := c.R
+	pr := c.P.Func(load.RootMod, "*MTProto", "processResponse")
+	if pr == nil {
+		r.Undecide(rule, "salt:saved-on-every-path", "", "processResponse not found")
+		return
+	}
+	saves := map[*ssa.BasicBlock]ssa.Instruction{}
+	for _, cs := range an.CallsNamed(pr, "(*"+load.RootMod+".MTProto).SaveSession") {
+		if _, have := saves[cs.Block]; !have {
+			saves[cs.Block] = cs.Instr
+		}
+	}
+	n := 0
+	for _, b := range pr.Blocks {
+		for _, in := range b.Instrs {
+			st, ok := in.(*ssa.Store)
+			if !ok {
+				continue
+			}
+			fa, ok := st.Addr.(*ssa.FieldAddr)
+			if !ok || an.FieldName(fa.X.Type(), fa.Field) != "mtproto.MTProto.serverSalt" {
+				continue
+			}
+			n++
+			// saved later in the same block?
+			if sv, ok := saves[b]; ok && an.InstrDominates(st, sv) {
+				r.Hold(rule, sprintf("salt:saved-on-every-path#%d", n), c.pos(st.Pos()), "SaveSession follows the store in the same block")
+				continue
+			}
+			var leak ssa.Instruction
+			seen := map[*ssa.BasicBlock]bool{}
+			var walk func(x *ssa.BasicBlock)
+			walk = func(x *ssa.BasicBlock) {
+				for _, sc := range x.Succs {
+					if seen[sc] || leak != nil {
+						continue
+					}
+					seen[sc] = true
+					if _, saved := saves[sc]; saved {
+						continue
+					}
+					for _, y := range sc.Instrs {
+						if ret, ok := an.AsReturn(y); ok {
+							leak = ret
+						}
+					}
+					walk(sc)
+				}
+			}
+			walk(b)
+			detail := ""
+			if leak != nil {
+				detail = "the return at " + c.pos(leak.Pos()) + " is reached after the store without a call of SaveSession: the running client has the new salt, the store keeps the old one"
+			}
+			r.Check(leak == nil, rule, sprintf("salt:saved-on-every-path#%d", n), c.pos(st.Pos()), detail)
+		}
+	}
+	if n == 0 {
+		r.Undecide(rule, "salt:saved-on-every-path", c.pos(pr.Pos()), "no store to MTProto.serverSalt in processResponse")
 	}
 }
